@@ -206,6 +206,7 @@ static long ptr_id(void* p)
   return k;
 }
 
+static bool g_logger_check_parks = false;
 // ------------------------------------------------------------------ hooks
 extern "C" void quill_verif_point(int id, void const* p)
 {
@@ -221,6 +222,23 @@ extern "C" void quill_verif_point(int id, void const* p)
   if (id == 7)
   {
     if (lt != &g_backend) { Ev e{"Commit"}; e.s("t", lt->name).u("now", vs::g_vunits.load()); }
+    return;
+  }
+  if (id == 10)
+  {
+    // start of an iteration of the clean-up loop over the registered loggers (registry lock held, see id 9)
+    if (lt == &g_backend && g_logger_check_parks)
+    {
+      std::string why = "LOGGER_ITER:" + static_cast<quill::detail::LoggerBase const*>(p)->logger_name;
+      vs::park(why.c_str());
+    }
+    return;
+  }
+  if (id == 9)
+  {
+    // inside LoggerManager::cleanup_invalidated_loggers (registry lock held): parks only when the script asked for it, and
+    // the script then runs nothing but lock-free frontend operations (log calls, remove_logger) until the backend resumes
+    if (lt == &g_backend && g_logger_check_parks) vs::park("LOGGER_CHECK");
     return;
   }
   if (lt == &g_backend && lt->fine)
@@ -481,14 +499,15 @@ static void report_state(vs::LT* lt, vs::LT::St st)
 
 static void backend_op(std::string const& op)
 {
-  if (op != "go")
+  if (op != "go" && op.rfind("until:", 0) != 0)
   {
     // a fine-grained poll left parked part-way is completed before a new backend operation starts
     while (g_backend.st == vs::LT::PARKED) { g_backend.fine = false; vs::drive(&g_backend); }
   }
-  if (op == "poll" || op == "pollf")
+  if (op == "poll" || op == "pollf" || op == "pollg")
   {
-    g_backend.fine = (op == "pollf");
+    g_backend.fine = (op != "poll");
+    g_logger_check_parks = (op == "pollg");
     auto st = vs::drive(&g_backend, [] {
       { Ev e{"PollBegin"}; }
       g_mbw->poll_one();
@@ -513,6 +532,14 @@ static void backend_op(std::string const& op)
   {
     auto st = vs::drive(&g_backend);
     report_state(&g_backend, st);
+  }
+  else if (op.rfind("until:", 0) == 0)
+  {
+    // resume the backend until it parks at the named yield point (or its operation ends)
+    std::string want = op.substr(6);
+    int guard = 0;
+    while (g_backend.st == vs::LT::PARKED && g_backend.why != want && ++guard < 200) vs::drive(&g_backend);
+    report_state(&g_backend, g_backend.st);
   }
   else if (op == "exit" || op == "exitf")
   {
@@ -590,6 +617,20 @@ static int run_script(std::istream& in)
       Ev e{"SinkCreated"};
       e.s("s", tok[1]).b("same", s.get() == g_sinks[tok[1]].get()).i("lvl", geti(a, "lvl", 0)).s("tw", gets(a, "tw")).s("tf", gets(a, "tf"))
         .b("ov", geti(a, "ov", 0) != 0);
+    }
+    else if (c == "getsink")
+    {
+      // look a sink up by name through the public API; compare with the object the harness holds (if it still holds one)
+      bool found = false, threw = false, same = false;
+      try
+      {
+        auto sp = VFrontend::get_sink(tok[1]);
+        found = sp != nullptr;
+        same = found && g_sinks.count(tok[1]) && g_sinks[tok[1]].get() == sp.get();
+      }
+      catch (std::exception const&) { threw = true; }
+      Ev e{"SinkGet"};
+      e.s("s", tok[1]).b("found", found).b("threw", threw).b("same", same).b("held", g_sinks.count(tok[1]) != 0);
     }
     else if (c == "dropsink")
     {
